@@ -68,6 +68,8 @@ def classify(rc, out):
         return ("ok", m.group(3), "")
     if m and m.group(1) == "violation":
         return (m.group(2), m.group(3), m.group(4) or "")
+    if rc == 79:
+        return ("hang", None, "run exceeded the per-run watchdog")
     a = re.search(r"ERROR: AddressSanitizer: (?:attempting )?([\w-]+)", out)
     if a:
         return ("asan:" + a.group(1), None, a.group(0))
